@@ -49,7 +49,8 @@ rc1, out1 = sh(demo)
 meta["demo_with_change"] = {"exit": rc1, "tail": out1[-800:]}
 clean()
 meta["confirmed"] = bool(rc0 == 0 and rc1 != 0 and base_ok)
-dst = "/verif/seeded/%s-%s" % (prop, n)
+sid = "%s-%s%s" % (prop, os.environ.get("SEED_SUFFIX", ""), n)
+dst = "/verif/seeded/%s" % sid
 os.makedirs(dst, exist_ok=True)
 for f in os.listdir(sd):
     if os.path.isfile(os.path.join(sd, f)) and os.path.getsize(os.path.join(sd, f)) < 400000:
@@ -58,6 +59,6 @@ meta["what_it_needs"] = "see README.md"
 json.dump(meta, open(os.path.join(dst, "meta.json"), "w"), indent=1)
 print("confirmed=%s (demo clean exit %d, demo with change exit %d, baseline ok %s)" % (meta["confirmed"], rc0, rc1, base_ok))
 if meta["confirmed"]:
-    subprocess.run([sys.executable, os.path.join(os.path.dirname(os.path.abspath(__file__)), "run_seeds.py"), "%s-%s" % (prop, n)])
+    subprocess.run([sys.executable, os.path.join(os.path.dirname(os.path.abspath(__file__)), "run_seeds.py"), sid])
 else:
     print("NOT CONFIRMED — seed kept for inspection only (meta.json says confirmed=false)")
